@@ -524,11 +524,41 @@ def r14_3(ctx):
     no_function_level_caches(ctx)
     ctx.check("no mutable default argument (one object shared by all calls)", not mut_defaults, "none", "; ".join(mut_defaults[:3]) or "none", "rzilcompiler/")
     ctx.check("no memoising decorator (results of earlier calls handed out again)", not memo, "none", "; ".join(memo[:3]) or "none", "rzilcompiler/")
+    # an entry of the routine registry is handed out for exactly the name it was stored under (the store is `sub_routines[name] = ...`):
+    # a look-up under a folded / normalised key answers with another routine's entry, depending on what was registered before
+    cs = idx.func("Compiler.compile_sub_routine")
+    npar = cs.node.args.args[1].arg
+    handed = []
+    for q in paths_of(cs.node):
+        if q.outcome != "return" or q.value is None or isinstance(q.value, ast.Call) and call_name(q.value) == "SubRoutine":
+            continue
+        t = U(q.value)
+        if "sub_routines" in t:
+            ok_v = t in (f"self.sub_routines[{npar}]", f"self.sub_routines.get({npar})", f"Compiler.sub_routines[{npar}]")
+            ok_g = any(pol and U(g) in (f"{npar} in self.sub_routines", f"{npar} in Compiler.sub_routines", f"{npar} in self.sub_routines.keys()") for g, pol in q.guards)
+            handed.append((t, ok_v and ok_g, q.guard_text()[:80]))
+    ctx.check("a registered routine is handed out under exactly the name it was stored under", all(ok_ for _, ok_, _ in handed), f"if {npar} in self.sub_routines: return self.sub_routines[{npar}]",
+              "; ".join(f"returns {t} under [{g}]" for t, ok_, g in handed if not ok_)[:200] or f"{len(handed)} look-up path(s) ok", fn_where(idx, cs))
     # compile_insn must (re)compile, not return a cached result
     fi = idx.func("Compiler.compile_insn")
     rets = [p for p in paths_of(fi.node) if p.outcome == "return"]
     ok = rets and all(call_name(p.value) == "self.transform_insn" for p in rets)
     ctx.check("compile_insn always transforms", ok, "return self.transform_insn(...) on every path", str([U(p.value)[:60] for p in rets]), fn_where(idx, fi))
+    # ... the trees filed under the very name it was asked for: compile_insn(n) is transform_insn(n, parsed_insns[n]), whatever other
+    # entries the table holds (a look-up under a derived name answers with another instruction's trees when both are present)
+    par = fi.node.args.args[1].arg if len(fi.node.args.args) > 1 else "insn_name"
+
+    def is_own_entry(e, pname, depth=0):
+        if isinstance(e, ast.Subscript) and U(e.value).endswith("parsed_insns") and U(e.slice) == pname:
+            return True
+        if depth < 2 and isinstance(e, ast.Call) and isinstance(e.func, ast.Attribute) and U(e.func.value) == "self" and idx.has_func(f"Compiler.{e.func.attr}") and len(e.args) == 1 and U(e.args[0]) == pname:
+            h = idx.func(f"Compiler.{e.func.attr}")
+            hp = h.node.args.args[1].arg if len(h.node.args.args) > 1 else None
+            hr = [q for q in paths_of(h.node) if q.outcome == "return"]
+            return bool(hr) and all(q.value is not None and is_own_entry(q.value, hp, depth + 1) for q in hr)
+        return False
+    bad = [U(p.value)[:80] for p in rets if not (isinstance(p.value, ast.Call) and len(p.value.args) == 2 and U(p.value.args[0]) == par and is_own_entry(p.value.args[1], par))]
+    ctx.check("compile_insn transforms the trees filed under the name it was given", bool(rets) and not bad, f"self.transform_insn({par}, self.parsed_insns[{par}])", "; ".join(bad[:2]) or "ok", fn_where(idx, fi))
     fi = idx.func("Compiler.transform_insn")
     rets = [p for p in paths_of(fi.node) if p.outcome == "return"]
     early = [p for p in rets if not any(e.kind == "loop" for e in p.events)]
